@@ -78,7 +78,7 @@ def header_families(P, G, tier, scale=0, **kw):
     return J
 
 
-def neighbourhood_families(P, G, tier, default_flags=False, **kw):
+def neighbourhood_families(P, G, tier, default_flags=False, fl_override=None, tag='nb-', **kw):
     """short symbolic windows at the places where the header options act (before/after the colon, value start and end, line
     start, fold points), inside otherwise concrete messages, with the header options symbolic"""
     J = []
@@ -97,7 +97,8 @@ def neighbourhood_families(P, G, tier, default_flags=False, **kw):
           ('third-value-end', 'resp', RESP_LINE + b'A: b\r\nCc: d\r\nN:v', b'\r\n\r\n', RESP_HDR_SYM), ('third-line-start', 'resp', RESP_LINE + b'A: b\r\nCc: d\r\n', b'N:v\r\n\r\n', RESP_HDR_SYM)]
     for nm, kind, pre, suf, fl in tm:
         if default_flags: fl = F0
-        J += deepen(P, G, 'nb-' + nm, lambda n, kind=kind, pre=pre, suf=suf, fl=fl, nm=nm: sc(kind, n, prefix=pre, suffix=suf, api='cfg', fl=fl, cap=(4 if nm.startswith('third') else 2)),
+        if fl_override is not None: fl = fl_override(kind)
+        J += deepen(P, G, tag + nm, lambda n, kind=kind, pre=pre, suf=suf, fl=fl, nm=nm: sc(kind, n, prefix=pre, suffix=suf, api='cfg', fl=fl, cap=(4 if nm.startswith('third') else 2)),
                     range(1, top + 1), bud, f'{kind} {pre!r} + ' + '{n} symbolic bytes + ' + f'{suf!r}' + ('' if default_flags else ', header options symbolic'), 3, **kw)
     return J
 
@@ -133,7 +134,7 @@ SLIDE_POOL = [
 ]
 
 
-def sliding_families(P, G, tier, default_flags=False, step=1, pool=None, max_off=None, cap=3, **kw):
+def sliding_families(P, G, tier, default_flags=False, step=1, pool=None, max_off=None, cap=3, fl_override=None, tag='slide-', **kw):
     """a short symbolic window slid over every offset of a few realistic multi-header messages (all options of the message
     kind symbolic unless default_flags): every byte value at every position of a long message, in its real context"""
     J = []
@@ -145,9 +146,10 @@ def sliding_families(P, G, tier, default_flags=False, step=1, pool=None, max_off
         else:
             fl = F0 if default_flags else ([f for f in flags(multi_sp_req='sym', sp_before_first='sym', ignore_req='sym')] if kind == 'req'
                                            else [f for f in flags(sp_after_name='sym', obs_fold='sym', multi_sp_resp='sym', sp_before_first='sym', ignore_resp='sym')])
+        if fl_override is not None: fl = fl_override(kind)
         for off in range(0, (min(max_off, len(msg) - w) if max_off is not None else len(msg) - w) + 1, step):
-            jb = product_job(P, f'slide-{nm}-o{off}', G, sc(kind, w, prefix=msg[:off], suffix=msg[off + w:], api='cfg', fl=fl, cap=cap), bud,
+            jb = product_job(P, f'{tag}{nm}-o{off}', G, sc(kind, w, prefix=msg[:off], suffix=msg[off + w:], api='cfg', fl=fl, cap=cap), bud,
                              f'{kind} message {nm} ({len(msg)} bytes) with bytes {off}..{off + w - 1} symbolic' + ('' if default_flags else ', options symbolic'),
-                             family=f'slide-{nm}', mandatory=False, validate_every=60, **kw)
+                             family=f'{tag}{nm}', mandatory=False, validate_every=60, **kw)
             jb.small = True; J.append(jb)
     return J
